@@ -120,6 +120,48 @@ def random_table(rng, nmodels=None, shared_identities=True, altlocs=True, close_
     return rows
 
 
+def scatter_residue_atoms(rng, rows, p=0.5):
+    """Make some residues non-contiguous inside their chain (alternate conformers stored
+    as a block, hydrogens or ligand atoms appended after the next residue / at the end
+    of the chain): the tail of a residue's rows is moved behind a later residue of the
+    same (model, chain).  Serials are renumbered in the new file order.  Returns the
+    number of residues scattered."""
+    blocks = []  # [(model, chain), [residue-run, ...]]
+    for r in rows:
+        key = (r["model"], r["chain"])
+        rk = (r["resseq"], r["icode"], r["resname"])
+        if not blocks or blocks[-1][0] != key:
+            blocks.append((key, []))
+        runs = blocks[-1][1]
+        if not runs or runs[-1][0] != rk:
+            runs.append((rk, []))
+        runs[-1][1].append(r)
+    moved = 0
+    out = []
+    for key, runs in blocks:
+        runs = [(rk, list(rs)) for rk, rs in runs]
+        i = 0
+        while i < len(runs) - 1:
+            rk, rs = runs[i]
+            if len(rs) >= 2 and rng.random() < p:
+                cut = rng.randint(1, len(rs) - 1)
+                tail = rs[cut:]
+                del rs[cut:]
+                dest = rng.randint(i + 1, len(runs) - 1)
+                runs.insert(dest + 1, (rk, tail))
+                moved += 1
+                i += 1
+            i += 1
+        for rk, rs in runs:
+            out.extend(rs)
+    if moved:
+        serials = sorted(r["serial"] for r in rows)
+        for r, sn in zip(out, serials):
+            r["serial"] = sn
+        rows[:] = out
+    return moved
+
+
 def template_rows(structure, max_res=12, start=0):
     """Abstract rows lifted from a parsed corpus structure (nucleotide-like
     residues keep their chi / O3'-P geometry)."""
